@@ -3,6 +3,7 @@ from vlib import *
 
 PID = "C19"
 LEVEL = "model_checking"
+VALIDATE_STUBS = True
 MOD = "handler::session::verif_c19::"
 INJ = [("src/handler/session.rs", "c19_replay.rs", "verif_replay_c19")]
 
